@@ -303,19 +303,21 @@ pub fn main(cli: &Cli) {
     let max_n = cli.tier.pick(6, 14);
     let max_size = cli.tier.pick(7, 16);
     let all = cases(max_n, max_size);
-    let sw = par_sweep(
+    let eval = |i: usize, sw: &mut Sweep| {
+        let case = &all[i];
+        let (class, r) = eval_case(case);
+        let q = &case.query;
+        let nontrivial = if !q.keys.is_empty() && (case.kind == "traversal" || q.after.is_some() || q.before.is_some()) { Some(hash_of(&serde_json::to_string(case).unwrap())) } else { None };
+        sw.case(nontrivial, &class, || serde_json::to_value(case).unwrap(), r);
+    };
+    let mut sw = par_sweep(
         "query_pagination",
         "every collection of 0..=N u64 keys (10,20,..), both directions (first/after, last/before), page sizes 0..=S and i32::MAX(-1), every cursor position (each entry, each gap, below the first, above the last, none); full traversals following the end cursor while has_next_page for every size>=1; every unsupported argument combination. non-trivial = collection non-empty and (a cursor given or a traversal); distinct by the whole input",
         all.len(),
         cli.threads,
-        |i, sw| {
-            let case = &all[i];
-            let (class, r) = eval_case(case);
-            let q = &case.query;
-            let nontrivial = if !q.keys.is_empty() && (case.kind == "traversal" || q.after.is_some() || q.before.is_some()) { Some(hash_of(&serde_json::to_string(case).unwrap())) } else { None };
-            sw.case(nontrivial, &class, || serde_json::to_value(case).unwrap(), r);
-        },
+        eval,
     );
+    crate::first_witnesses(&mut sw, all.len(), eval);
     // vacuity: both directions must have produced multi-page traversals, and rejections must have been seen
     for need in ["traversal-forward-multi-page", "traversal-backward-multi-page", "illegal-rejected", "page-forward-more-cursor", "page-backward-more-cursor"] {
         if !sw.outcomes.contains_key(need) && sw.violations.is_empty() {
